@@ -125,18 +125,20 @@ def rules_pairing(ctx, F):
         ctx.after("P2", "ts_parser__lex:finish-after-every-scan", fn, scans, fin,
                   "every scan is followed by ts_lexer_finish(&lexer, &lookahead_end_byte) before the lexer is repositioned (only the scanner-error abort is exempt)",
                   stop_pts=stops, exempt_pts=abort)
+        fc = [n for pt, n in find(fn, "ts_lexer_finish(&self->lexer, &_)")]
+        leb = strip(strip(fc[0]["a"][1])["e"])["name"] if fc and strip(fc[0]["a"][1]).get("k") == "un" and strip(strip(fc[0]["a"][1])["e"]).get("k") == "ref" else "lookahead_end_byte"
         n_la = 0
         for pt, e in fn.points():
-            if e.get("k") == "decl" and M(fn).match("lookahead_end_byte - _", e.get("init") or {}) or (e.get("k") == "decl" and e["name"] == "lookahead_bytes"):
+            if e.get("k") == "decl" and M(fn).match("%s - _" % leb, e.get("init") or {}) or (e.get("k") == "decl" and e["name"] == "lookahead_bytes"):
                 n_la += 1
-                if any(x.get("k") == "ref" and x["name"] == "lookahead_end_byte" for x in walk(e.get("init") or {})):
+                if any(x.get("k") == "ref" and x["name"] == leb for x in walk(e.get("init") or {})):
                     ctx.ok("P2", "ts_parser__lex:lookahead_bytes#%d" % n_la, "lookahead_bytes at %s is computed from lookahead_end_byte" % fn.loc(pt))
                 else:
                     ctx.bad("P2", "ts_parser__lex:lookahead_bytes#%d" % n_la, "lookahead_bytes at %s does not depend on lookahead_end_byte: bytes the lexer examined are not accounted for" % fn.loc(pt))
         ctx.floor("lookahead_bytes computations", n_la, 2)
         for ctor in ("ts_subtree_new_error", "ts_subtree_new_leaf"):
             c = [n for pt, n in find(fn, ctor + "(...)")]
-            if c and any(M(fn).match("@deref(lookahead_end_byte - _)", a) for a in c[0]["a"]):
+            if c and any(M(fn).match("@deref(%s - _)" % leb, a) for a in c[0]["a"]):
                 ctx.ok("P2", "ts_parser__lex:%s-gets-lookahead_bytes" % ctor, "%s receives lookahead_bytes" % ctor)
             else:
                 ctx.bad("P2", "ts_parser__lex:%s-gets-lookahead_bytes" % ctor, "%s in ts_parser__lex is no longer given lookahead_bytes" % ctor)
@@ -156,6 +158,7 @@ def rules_pairing(ctx, F):
             ("depends_on_column", "self.ptr->depends_on_column = 1", None),
         ]
         st = find(fn, "self.ptr->lookahead_bytes = _")
+        bind(fn, "child_lookahead_end_byte", "_ + _ + ts_subtree_lookahead_bytes(_)")
         le = fn.ids_named("child_lookahead_end_byte")
         d = fn.single_def(le[0]) if le else None
         if st and d is not None and any(x.get("k") == "call" and x.get("fn") == "ts_subtree_lookahead_bytes" for x in walk(d)):
